@@ -217,13 +217,19 @@ def run(ctx):
             stats["hub_models"] = stats.get("hub_models", 0) + 1
         base = {"arpa": m.arpa_bytes().decode("latin-1"), "vocab": m.vocab_bytes().decode("latin-1")}
         for typ in lc.TYPES:
-            r = sess.run_impl(lmq, typ, qs)
-            if not r["head"].startswith("loaded") or len(r["lines"]) != len(qs):
-                stats["not_accepted"] = stats.get("not_accepted", 0) + 1
-                continue
-            stats["impl_runs"] = stats.get("impl_runs", 0) + 1
-            for sig, what, rq in recombination_oracle(m, typ, qs, r["lines"]):
-                allprob.append((sig, what, dict(base, type=typ, **rq), True))
+            # quantised tries also with few bits (lossy bins): a state that keeps too little context still gives the same sums while every
+            # value is exact, and a different one as soon as the bins are lossy (sixth-round seeded changes C02-17, C02-18); the oracles are
+            # internal to one model, so the loss itself does not matter.  backoff_bits >= 2: one bit is finding F6 of C03.
+            for qo in ([[]] + ([["probbits=%d" % rng.range(2, 5), "backoffbits=%d" % rng.range(2, 5)]] if typ in ("qtrie", "qatrie") else [])):
+                r = sess.run_impl(lmq, typ, qs, opts=qo)
+                if not r["head"].startswith("loaded") or len(r["lines"]) != len(qs):
+                    stats["not_accepted"] = stats.get("not_accepted", 0) + 1
+                    continue
+                stats["impl_runs"] = stats.get("impl_runs", 0) + 1
+                if qo:
+                    stats["lossy_quantised_runs"] = stats.get("lossy_quantised_runs", 0) + 1
+                for sig, what, rq in recombination_oracle(m, typ, qs, r["lines"]):
+                    allprob.append((sig + (":few-bits" if qo else ""), what, dict(base, type=typ, opts=qo, **rq), True))
         # correspondence with the model (shared with C01)
         allprob += [p for p in c01.compare_case(ctx, m, sess, lmq, model_exe, qs[:40], ["probing", "trie"], stats) if not p[3]]
         if mi == 0:
